@@ -18,7 +18,7 @@ func propC08() Property {
 			"R2: in the logon state every call that can reach an application callback or a send is dominated by MsgType == Logon. R3: stateMachine.State has exactly two writers (the transition function and Start); OnLogout and OnLogon are each invoked from exactly one function; the OnLogout function is reached only from the transition function under cur.IsConnected ∧ ¬next.IsConnected (or the connect-outside-session-time arm), and where it can be re-entered through its own callees the call is protected by a re-entrancy flag set before and cleared after. " +
 			"R4: every channel send to the connection is in a function that first tests messageOut != nil; every close(messageOut) is followed on all paths by messageOut = nil. " +
 			"R5: in the disconnect handler the reads of the state that decide OnLogout, and the OnLogout call itself, come before any call that can re-enter inbound processing (the drain of buffered messages), which may change the state. " +
-			"R6: a logged-on state that delegates an inbound message to the in-session handler (the recovery state) returns itself only when the delegate's result is still logged on: when the engine has sent its Logout (logout state) or disconnected, the wrapper must not put the session back into a logged-on state.",
+			"R6: a logged-on state that delegates an inbound message to the in-session handler (the recovery state) returns itself only when the delegate's result is still logged on: when the engine has sent its Logout (logout state) or disconnected, the wrapper must not put the session back into a logged-on state. R7: a state handler that has initiated the engine's Logout returns, on every return reachable from that call, the logout state (or delegates / takes the send-failure exit) — never its own logged-on state.",
 		NotDecided: "'exactly one' as a count over event histories (R3 shows a unique guarded, non-re-entrant site, not a trace count); delivery to the application outside logon (C06 decides the gate).",
 		Rules: []RuleDef{
 			{ID: "C08-R1", Desc: "wire sends only when logged on / Logon-Logout / replay", Min: 4, Run: c08R1},
@@ -27,6 +27,7 @@ func propC08() Property {
 			{ID: "C08-R4", Desc: "nothing written after disconnect", Min: 3, Run: c08R4},
 			{ID: "C08-R5", Desc: "logout decision taken before buffered input is drained", Min: 1, Run: c08R5},
 			{ID: "C08-R6", Desc: "a logged-on wrapper state never survives its delegate leaving the logged-on set", Min: 1, Run: c08R6},
+			{ID: "C08-R7", Desc: "a handler that initiated the Logout returns the logout state", Min: 3, Run: c08R7},
 		},
 	}
 }
@@ -622,4 +623,67 @@ func embeds(T, E *types.Named) bool {
 		}
 	}
 	return false
+}
+
+// C08-R7: once a handler has initiated the engine's Logout, it does not hand the session back
+// to a logged-on state: every return reachable after a call of a logout initiator yields the
+// logout state (or a delegation / the send-failure exit), never the receiver state or inSession.
+func c08R7(c *Ctx) {
+	p := c.P
+	inits := p.logoutInitiators()
+	n := 0
+	for _, fn := range p.FuncsIn(modPath) {
+		res := fn.Signature.Results()
+		if res.Len() != 1 || typeName(res.At(0).Type()) != "sessionState" || containsFn(inits, fn) {
+			continue
+		}
+		for _, cl := range Calls(fn) {
+			cal := cl.Common().StaticCallee()
+			if cal == nil || !containsFn(inits, cal) {
+				continue
+			}
+			n++
+			okAll := true
+			for _, b := range fn.Blocks {
+				ret, ok := b.Instrs[len(b.Instrs)-1].(*ssa.Return)
+				if !ok {
+					continue
+				}
+				after := b == cl.Block() || reaches(cl.Block(), b)
+				if !after {
+					continue
+				}
+				// the value returned
+				var vals []ssa.Value
+				if phi, isPhi := ret.Results[0].(*ssa.Phi); isPhi {
+					vals = append(vals, phi.Edges...)
+				} else {
+					vals = append(vals, ret.Results[0])
+				}
+				for _, v := range vals {
+					good := false
+					switch x := v.(type) {
+					case *ssa.MakeInterface:
+						tn := typeName(x.X.Type())
+						good = tn == "logoutState" || tn == "latentState"
+					case *ssa.Call:
+						good = true // delegation (send-failure exit, another handler)
+					}
+					if o := p.Origin(v); o.Kind == "call" {
+						good = true
+					}
+					if !good {
+						okAll = false
+						c.Violation(FuncName(fn), p.InstrPos(ret), "state-after-logout-initiated", "after initiating the engine's Logout (at "+p.InstrPos(cl.(ssa.Instruction))+") the handler returns "+p.Origin(v).String()+" instead of the logout state: the session stays logged on after its own Logout went out, application messages keep being transmitted and the logout timeout is ignored")
+					}
+				}
+			}
+			if okAll {
+				c.OK(FuncName(fn), p.InstrPos(cl.(ssa.Instruction)), "every return after the Logout was initiated yields the logout state or delegates")
+			}
+		}
+	}
+	if n == 0 {
+		c.Violation("", "-", "no-logout-initiation", "no state handler initiates a Logout")
+	}
 }
